@@ -30,6 +30,13 @@ CLAIMED = {
     note="Czerny-Turner optics formula is opaque (mutated-vs-fresh only); exact settings use integer layouts and power-of-two min_bins; raysect Spectrum.integrate semantics trusted as the definition of the integral.",
     technique="TLA+ lazy-settings state machine + exact rational calibration table, TLC exhaustive edges replayed into the code",
     design="4.16"),
+ "C19": dict(
+    text="Registry.tla states the property as first-order formulas over the registry recorded from the real module (all 374 exported Element/Isotope objects, "
+         "every identifier in 5 letter-case spellings looked up through lookup_element/lookup_isotope, the complete ==, != and hash relations, dictionary-key use, "
+         "Line twins); TLC evaluates them with one state per object against a hand-typed periodic table. Exhaustive: the space is finite and fully enumerated.",
+    note="Trusts the dump code in mbt/c19.py (self-test corrupts three recorded fields and requires three different invariants to fail); atomic weights only range-checked.",
+    technique="TLC evaluation of first-order invariants over the recorded registry (trace = full dump of the real module)",
+    design="4.19"),
 }
 
 NOT_YET = {}
